@@ -39,7 +39,7 @@ theorem mainStep_posted {k : Nat} {w w' : Wk τ} {p : MainP} (hm : mainStep k w 
   | collect =>
     simp only [hph] at hm
     cases p with
-    | collect errs garbage =>
+    | collect errs garbage intr sf0 =>
       simp only at hm
       split at hm
       · simp only [Option.some.injEq] at hm; subst hm; exact ⟨rfl, rfl⟩
